@@ -33,7 +33,8 @@ type c11Case struct {
 	Order    []int  `json:"release_order"` // permutation of the chunk calls (by first token index order)
 	FailAt   int    `json:"fail_chunk"`    // -1 none
 	FailKind string `json:"fail_kind,omitempty"`
-	Files    []int  `json:"file_requests,omitempty"` // request indexes carrying an upload
+	Files    []int  `json:"file_requests,omitempty"`      // request indexes carrying an upload
+	Dup      bool   `json:"repeating_requests,omitempty"` // request i is the same as request i mod m: all full chunks are byte-identical
 	Jitter   uint64 `json:"jitter_seed"`
 }
 
@@ -89,6 +90,7 @@ type c11Combo struct {
 	n, m, order, failAt int
 	kind                string
 	files               bool
+	dup                 bool
 }
 
 func c11Bounds(tier string) (int, int) {
@@ -133,27 +135,32 @@ func c11List(tier string) []c11Combo {
 				}
 			}
 			for o := 0; o < orders; o++ {
-				out = append(out, c11Combo{n, m, o, -1, "", false})
+				out = append(out, c11Combo{n, m, o, -1, "", false, false})
 			}
 			// failures: every chunk position x kind, under up to 3 orders
 			for f := 0; f < c && n > 0; f++ {
 				for _, k := range c11Kinds {
 					for o := 0; o < orders && o < 3; o++ {
-						out = append(out, c11Combo{n, m, o, f, k, false})
+						out = append(out, c11Combo{n, m, o, f, k, false, false})
 					}
 				}
 			}
 			if n > 0 {
-				out = append(out, c11Combo{n, m, 0, -1, "", true}, c11Combo{n, m, 1, -1, "", true})
+				out = append(out, c11Combo{n, m, 0, -1, "", true, false}, c11Combo{n, m, 1, -1, "", true, false})
 				// answers worded differently but meaning the same: nothing may change
 				for _, k := range c11Benign {
-					out = append(out, c11Combo{n, m, 0, 0, k, false})
+					out = append(out, c11Combo{n, m, 0, 0, k, false, false})
 				}
+			}
+			// a list that repeats itself with the period of the batch size: the chunk calls carry identical bodies and
+			// each of them is still a call of its own
+			if c > 1 {
+				out = append(out, c11Combo{n: n, m: m, order: 0, failAt: -1, dup: true})
 			}
 			// every chunk call fails (a service that is down), under two completion orders
 			if c > 1 {
 				for _, k := range []string{"all:transport-error", "all:status-500", "all:element-errors"} {
-					out = append(out, c11Combo{n, m, 0, 0, k, false}, c11Combo{n, m, 1, 0, k, false})
+					out = append(out, c11Combo{n, m, 0, 0, k, false, false}, c11Combo{n, m, 1, 0, k, false, false})
 				}
 			}
 		}
@@ -168,7 +175,7 @@ func (p c11) BatchSize(c *run.Ctx) int { return 250 }
 func (p c11) Gen(c *run.Ctx, idx int) (json.RawMessage, error) {
 	cb := c11List(c.Tier)[idx]
 	r := rng(c.Seed, "c11", idx)
-	cs := c11Case{N: cb.n, M: cb.m, FailAt: cb.failAt, FailKind: cb.kind, Jitter: uint64(r.Int63())}
+	cs := c11Case{N: cb.n, M: cb.m, FailAt: cb.failAt, FailKind: cb.kind, Jitter: uint64(r.Int63()), Dup: cb.dup}
 	cc := chunkCount(cb.n, cb.m)
 	if cc <= 4 {
 		ps := permutations(cc)
@@ -350,13 +357,22 @@ func (p c11) Exec(c *run.Ctx, idx int, raw json.RawMessage) []run.Result {
 	res := run.Result{Verdict: run.Held, Counters: map[string]int{}}
 	cc := chunkCount(sp.N, sp.M)
 	res.NonTrivial = sp.N > sp.M
-	res.Key = hashStr(fmt.Sprint(sp.N, sp.M, sp.Order, sp.FailAt, sp.FailKind, sp.Files))
+	res.Key = hashStr(fmt.Sprint(sp.N, sp.M, sp.Order, sp.FailAt, sp.FailKind, sp.Files, sp.Dup))
+	tokOf := func(i int) int {
+		if sp.Dup {
+			return i % sp.M
+		}
+		return i
+	}
 	tags := map[string]bool{}
 	if sp.FailAt >= 0 {
 		tags["fail:"+sp.FailKind] = true
 	}
 	if len(sp.Files) > 0 {
 		tags["files"] = true
+	}
+	if sp.Dup {
+		tags["repeating-requests"] = true
 	}
 	res.Tags = sortedKeys(tags)
 	isFile := map[int]bool{}
@@ -369,7 +385,7 @@ func (p c11) Exec(c *run.Ctx, idx int, raw json.RawMessage) []run.Result {
 		if isFile[i] {
 			vars["f"] = &requests.Upload{File: memFile{strings.NewReader(fmt.Sprintf("file-%d", i))}, FileName: fmt.Sprintf("f%d.txt", i)}
 		}
-		inputs[i] = &requests.Request{Query: fmt.Sprintf(`{ echo(t: "tok-%d") }`, i), Variables: vars}
+		inputs[i] = &requests.Request{Query: fmt.Sprintf(`{ echo(t: "tok-%d") }`, tokOf(i)), Variables: vars}
 	}
 	rt := &c11RT{arrived: make(chan struct{}, 1), gated: cc > 1 && len(sp.Files) == 0, failTok: -1, kind: sp.FailKind}
 	if sp.FailAt >= 0 {
@@ -547,11 +563,15 @@ func (p c11) Exec(c *run.Ctx, idx int, raw json.RawMessage) []run.Result {
 	if len(o.res) != sp.N {
 		return fail("result-count", fmt.Sprintf("%d results for %d requests", len(o.res), sp.N))
 	}
+	wantSeen := map[int]int{}
 	for i := 0; i < sp.N; i++ {
-		if seen[i] != 1 {
-			return fail("request-not-sent-exactly-once", fmt.Sprintf("token %d appeared in %d calls", i, seen[i]))
+		wantSeen[tokOf(i)]++
+	}
+	for i := 0; i < sp.N; i++ {
+		if seen[tokOf(i)] != wantSeen[tokOf(i)] {
+			return fail("request-not-sent-exactly-once", fmt.Sprintf("token %d appeared %d times over all calls, the list holds it %d times", tokOf(i), seen[tokOf(i)], wantSeen[tokOf(i)]))
 		}
-		want := fmt.Sprintf("tok-%d", i)
+		want := fmt.Sprintf("tok-%d", tokOf(i))
 		if o.res[i] == nil || o.res[i]["echo"] != want {
 			return fail("result-does-not-answer-its-request", fmt.Sprintf("result[%d] = %v, want echo %s", i, o.res[i], want))
 		}
